@@ -113,12 +113,14 @@ Proof. exact gmt_plus_h_lemma. Qed.
 Print Assumptions C08_gmt_plus_h_reading.
 
 
-(* negative saving (daylight offset below the standard offset, e.g. the Irish rule), which
-   guard_apart excludes: the faithful model contradicts POSIX, and UTC -> local -> UTC does not
-   round-trip (finding F-C08-3) *)
+(* negative saving (daylight offset below the standard offset, e.g. the Irish rule): EVERY clause of the
+   guard holds except the sign of the saving (guard_apart = guard_distance && p_off < d_off, lemma
+   guard_apart_is_distance_and_positive_saving) and the faithful model contradicts POSIX; UTC -> local
+   -> UTC does not round-trip (finding F-C08-3) *)
 Theorem C08_tzstr_posix_negative_dst_refuted :
   exists r u z o,
-    wf_posix r = true /\ guard_d8 r = true /\ guard_apart r = false /\
+    wf_posix r = true /\ guard_d8 r = true /\ guard_distance r = true /\
+    (exists ds, r.(p_dst) = Some ds /\ ds.(d_off) < r.(p_off)) /\
     tzstr_init (render_posix r) false = Ok z /\ observe_utc z u = Ok o /\
     o.(o_off) <> fst (fst (posix_observe r u)) /\ o.(o_wall) - o.(o_off) <> u.
 Proof. exact tzstr_posix_negative_dst_refuted_lemma. Qed.
@@ -197,6 +199,23 @@ Theorem C08_tzstr_rejects_classes2 : forall r ds po,
 Proof. exact tzstr_rejects_classes2. Qed.
 Print Assumptions C08_tzstr_rejects_classes2.
 
+(* POSIX forms OUTSIDE wf_posix (so none of the theorems above speaks about them), on the faithful model:
+   the quoted abbreviation '<+03>-3', the offset with seconds 'LMT0:25:21' and the signed rule time
+   'EST5EDT,M3.2.0/-1,M11.1.0/2' are rejected with ValueError (open findings F-C08-quoted-names,
+   F-C08-offset-seconds, F-C08-signed-rule-time), and the deprecated comma format without a standard
+   offset 'xxx,1,2,3,4,5,6,7,8,9' raises TypeError instead of ValueError (F-C08-depcomma-typeerror).
+   The remaining exclusions of wf_posix are not POSIX strings: unquoted names that are not >= 3 letters,
+   rule times >= 168 h (POSIX.1-2024: at most 167).  Saving = 0 is outside guard_apart: differential only. *)
+Theorem C08_posix_forms_outside_wf_refuted :
+  tzstr_init [60; 43; 48; 51; 62; 45; 51] false = Err EValue /\
+  tzstr_init [76; 77; 84; 48; 58; 50; 53; 58; 50; 49] false = Err EValue /\
+  tzstr_init [69; 83; 84; 53; 69; 68; 84; 44; 77; 51; 46; 50; 46; 48; 47; 45; 49; 44; 77; 49; 49; 46; 49;
+              46; 48; 47; 50] false = Err EValue /\
+  tzstr_init [120; 120; 120; 44; 49; 44; 50; 44; 51; 44; 52; 44; 53; 44; 54; 44; 55; 44; 56; 44; 57] false
+    = Err EType.
+Proof. exact posix_forms_rejected_lemma. Qed.
+Print Assumptions C08_posix_forms_outside_wf_refuted.
+
 (* tzlocal: for ANY C library isdst function, any offsets with altzone <> timezone, and every UTC
    instant, tzlocal reports the C library's answer (offset, dst, abbreviation) on the wall reading
    u + offset ... *)
@@ -207,35 +226,63 @@ Theorem C08_tzlocal_faithful_to_libc : forall libc std alt sn dn, alt <> std -> 
 Proof. exact tzlocal_faithful_utc. Qed.
 Print Assumptions C08_tzlocal_faithful_to_libc.
 
-(* ... hence what POSIX prescribes when the C library implements the rule, at every instant, for
-   every rule with a POSITIVE saving (no D8 guard, no distance guard).  Partial: the C library is
-   trusted, not verified; and for a negative saving CPython's time.timezone/altzone/tzname are not
-   the (isdst=0, isdst=1) pair this instantiation assumes -- there tzlocal is wrong all year
-   (finding F-C08-4, reproduced under TZ=Europe/Dublin). *)
-Theorem C08_tzlocal_posix_partial : forall r u,
-  (forall ds, r.(p_dst) = Some ds -> r.(p_off) < ds.(d_off)) ->
-  exists f, tzlocal_observe_utc r u =
+(* ... hence what POSIX prescribes, under three EXPLICIT hypotheses (Partial: none of them is proved of
+   the real system):
+   (H1) libc_implements c r: the C library's localtime() reports tm_isdst / tm_gmtoff / tm_zone of the
+        POSIX rule r at every instant (the C library is trusted, compared with real glibc on every run);
+   (H2) the saving is positive;
+   (H3) exactly one of the two instants tj, tl at which CPython's time module SAMPLES localtime()
+        (timemodule.c init_timezone: "January" and "July" of the current year; TzLocalModel.time_module)
+        is a daylight instant.
+   tzlocal.__init__ reads time.timezone / altzone / daylight / tzname, which time_module computes from
+   the two samples.  Without (H2): finding F-C08-4; without (H3): finding F-C08-5 (both refuted below).
+   No D8 guard and no distance guard are needed. *)
+Theorem C08_tzlocal_posix_partial : forall c r tj tl u,
+  libc_implements c r ->
+  (forall ds, r.(p_dst) = Some ds -> r.(p_off) < ds.(d_off) /\ posix_isdst r tj <> posix_isdst r tl) ->
+  exists f, tzlocal_c_observe_utc c tj tl u =
     (let '(o, d, n) := posix_observe r u in (u + o, f, o, d, n)).
-Proof. exact tzlocal_posix_utc_pos_lemma. Qed.
+Proof. exact tzlocal_posix_utc_lemma. Qed.
 Print Assumptions C08_tzlocal_posix_partial.
 
-(* F-C08-4, as a theorem about the faithful model: with the pair CPython's time module provides
-   (smaller offset, larger offset) and a negative saving, tzlocal reports the wrong offset and
-   abbreviation *)
+(* the hypothesis (H1) is satisfiable: the specification itself is such a C library (the instance the
+   correspondence runs) *)
+Theorem C08_tzlocal_libc_hypothesis_inhabited : forall r, libc_implements (posix_libc r) r.
+Proof. exact posix_libc_implements. Qed.
+Print Assumptions C08_tzlocal_libc_hypothesis_inhabited.
+
+(* F-C08-4, as a theorem about the faithful model: (H3) holds, the saving is negative -- the time module
+   holds the (smaller, larger) sampled offsets, tzlocal indexes them by tm_isdst and reports the wrong
+   offset and abbreviation (TJ_2021 / TL_2021: the samples of a process started in 2021) *)
 Theorem C08_tzlocal_negative_dst_refuted :
   exists r u, wf_posix r = true /\
     (exists ds, r.(p_dst) = Some ds /\ ds.(d_off) < r.(p_off)) /\
-    let '(_, _, o, _, n) := tzlocal_observe_utc r u in
+    posix_isdst r TJ_2021 <> posix_isdst r TL_2021 /\
+    let '(_, _, o, _, n) := tzlocal_observe_utc r TJ_2021 TL_2021 u in
     let '(o', _, n') := posix_observe r u in o <> o' /\ n <> n'.
 Proof. exact tzlocal_negative_dst_refuted_lemma. Qed.
 Print Assumptions C08_tzlocal_negative_dst_refuted.
 
-(* wall readings through tzlocal: a reading that denotes an instant (normal, or ambiguous with
-   its fold: fold=0 the earlier, fold=1 the later instant) observes what POSIX prescribes there *)
-Theorem C08_tzlocal_wall_partial : forall r ds w f u,
-  r.(p_dst) = Some ds -> r.(p_off) < ds.(d_off) ->
+(* F-C08-5: a rule INSIDE the full guard with a positive saving whose daylight window contains neither
+   sample ('EST5EDT,M2.1.0,M5.1.0'): the time module reports daylight = 0 and one offset, tzlocal has no
+   daylight time at all and contradicts POSIX (and glibc) inside the window *)
+Theorem C08_tzlocal_unsampled_window_refuted :
+  exists r u, wf_posix r = true /\ guard_apart r = true /\ guard_d8 r = true /\
+    (exists ds, r.(p_dst) = Some ds /\ r.(p_off) < ds.(d_off)) /\
+    posix_isdst r TJ_2021 = posix_isdst r TL_2021 /\
+    time_module (posix_libc r) TJ_2021 TL_2021 = (r.(p_off), r.(p_off), false, r.(p_name), r.(p_name)) /\
+    let '(_, _, o, _, n) := tzlocal_observe_utc r TJ_2021 TL_2021 u in
+    let '(o', _, n') := posix_observe r u in o <> o' /\ n <> n'.
+Proof. exact tzlocal_unsampled_window_refuted_lemma. Qed.
+Print Assumptions C08_tzlocal_unsampled_window_refuted.
+
+(* wall readings through tzlocal under (H1)-(H3): a reading that denotes an instant (normal, or ambiguous
+   with its fold: fold=0 the earlier, fold=1 the later instant) observes what POSIX prescribes there *)
+Theorem C08_tzlocal_wall_partial : forall c r ds tj tl w f u,
+  libc_implements c r ->
+  r.(p_dst) = Some ds -> r.(p_off) < ds.(d_off) -> posix_isdst r tj <> posix_isdst r tl ->
   wall_instant r w f = Some u ->
-  tzlocal_observe_wall r w f = posix_observe r u.
+  tzlocal_c_observe_wall c tj tl w f = posix_observe r u.
 Proof. exact tzlocal_posix_wall_lemma. Qed.
 Print Assumptions C08_tzlocal_wall_partial.
 
